@@ -3,6 +3,7 @@ SPECIFICATION SSpec
 CONSTANTS
     NThreads = 2
     StoreOf <- MC_Store1
+    InstKind <- MC_Kind1
     NKeys = 3
     PropChoices <- MC_None
     Kinds <- MC_None
@@ -12,7 +13,7 @@ CONSTANTS
     MaxDepth = 3
     Panics = FALSE
     MaxSpans = 4
-    WithIncoming = TRUE
+    IncomingKinds <- MC_IncAll
     WithLazy = TRUE
     Emit = TRUE
 VIEW sview
